@@ -75,24 +75,26 @@ func (am *YAMLAccountManager) Create(account hotline.Account) error {
 	am.mu.Lock()
 	defer am.mu.Unlock()
 
-	// Create account file, returning an error if one already exists.
-	file, err := os.OpenFile(
-		filepath.Join(am.accountDir, path.Join("/", account.Login+".yaml")),
-		os.O_CREATE|os.O_EXCL|os.O_WRONLY, 0644,
-	)
-	if err != nil {
-		return fmt.Errorf("create account file: %w", err)
+	// Return an error if the account file already exists.  Every account mutation holds am.mu, so the
+	// file cannot appear between this check and the rename below.
+	accountFile := filepath.Join(am.accountDir, path.Join("/", account.Login+".yaml"))
+	if _, err := os.Stat(accountFile); err == nil {
+		return fmt.Errorf("create account file: %w", os.ErrExist)
 	}
-	defer file.Close()
 
 	b, err := yaml.Marshal(account)
 	if err != nil {
 		return fmt.Errorf("marshal account to YAML: %v", err)
 	}
 
-	_, err = file.Write(b)
-	if err != nil {
+	// Write the account to a temporary file in the same directory and rename it into place, so that a
+	// crash never leaves an empty or half written account file behind.
+	tempFile := accountFile + ".tmp"
+	if err := os.WriteFile(tempFile, b, 0644); err != nil {
 		return fmt.Errorf("write account file: %w", err)
+	}
+	if err := os.Rename(tempFile, accountFile); err != nil {
+		return fmt.Errorf("create account file: %w", err)
 	}
 
 	am.accounts[account.Login] = account
